@@ -58,7 +58,13 @@ func OracleC17Rounds(tr *Trace) Verdict {
 			v.Viols = append(v.Viols, Viol{At: creates[4].IssueT, Sig: "C17 round-more-than-four-attempts",
 				Msg: fmt.Sprintf("%s: the acquisition round that began at %v issued %d Create attempts", who, r.startT, len(creates))})
 		}
-		stopSeq, _ := ci.firstStopAfter(r.obj, r.startSeq)
+		// the round's context is cancelled somewhere inside the stop call (for a Start context that ends by
+		// deadline: 1ns after the harness records the call; for a stop fired from a log line: once it gets the
+		// election mutex), so an attempt counts as "after the cancellation" from the call's return on
+		stopSeq := 1 << 60
+		if _, st := ci.firstStopAfter(r.obj, r.startSeq); st != nil && st.RetSeq >= 0 {
+			stopSeq = st.RetSeq
+		}
 		for _, c := range creates {
 			if c.IssueSeq > stopSeq {
 				v.Viols = append(v.Viols, Viol{At: c.IssueT, Sig: "C17 round-attempt-after-cancellation",
